@@ -77,10 +77,8 @@ Definition do_park (e : exec) (me : nat) : mres :=
   match get_thread e me with
   | None => MFail e (PanicModel 10)
   | Some t =>
-      match t_state t with
-      | Runnable true => MOk (upd_thread e me set_runnable)
-      | _ => fst (schedule (upd_thread e me (fun t => th_set_op (set_blocked t) None)))
-      end
+      if t_token t then MOk (upd_thread e me (fun t => th_set_token t false))
+      else fst (schedule (upd_thread e me (fun t => th_set_op (set_blocked t) None)))
   end.
 
 (* rt::yield_now *)
@@ -371,7 +369,7 @@ Definition exec_micro (e : exec) (me : nat) (m : micro) : mres :=
           let sy := sync_store (nt_sync s) (caus_of e me) (rel_of e me) Release in
           let e := upd_object e n (fun _ => ONotify (nt_set s (nt_did_spur s) true sy)) in
           let c := caus_of e me in
-          MOk (map_others e me (pending_on n) (fun t => thread_unpark t c))
+          MOk (map_others e me (pending_on n) (fun t => thread_notified t c))
       end
 
   | MExitNotify =>
